@@ -263,6 +263,8 @@ type c18OpResult struct {
 
 type c18ScnResult struct {
 	Ops       []c18OpResult
+	Lines     [][2]string // model op line, observed canonical output
+	BadKey    string
 	Bad       []string // oracle failures
 	Trace     []string
 	StopHung  bool
@@ -296,8 +298,11 @@ func c18RunScenario(scn c18Scn, uniq int) *c18ScnResult {
 	accts := make([]*c18Acct, scn.NAccts)
 	srv := &c18Server{byKey: map[string]int{}, activity: &activity}
 	signer := &c18Signer{byLoc: map[keychain.KeyLocator]*c18Acct{}}
+	sink := &c18FailSink{}
 	for i := range accts {
 		accts[i] = c18MakeAcct(uniq*8 + i + 100)
+		c18FailSinks.Store(string(accts[i].pub[:]), sink)
+		defer c18FailSinks.Delete(string(accts[i].pub[:]))
 		srv.byKey[string(accts[i].pub[:])] = i
 		srv.pubs = append(srv.pubs, accts[i].desc.PubKey)
 		signer.byLoc[accts[i].desc.KeyLocator] = accts[i]
@@ -383,7 +388,12 @@ func c18RunScenario(scn c18Scn, uniq int) *c18ScnResult {
 
 	subscribed := map[int]bool{} // accounts whose StartAccountSubscription returned nil
 	faultSeen := false
+	modelled := true // still inside the fragment the Lean model covers
+	var prevMap []int
+	res.Lines = append(res.Lines, [2]string{"C18 cl reset", "ok"})
 	for opIdx, op := range scn.Ops {
+		wasOpen := client.IsSubscribed()
+		sink.drain()
 		srv.mu.Lock()
 		srv.refuse = op.Refuse
 		srv.beh = append([]string(nil), op.Beh...)
@@ -500,6 +510,146 @@ func c18RunScenario(scn c18Scn, uniq int) *c18ScnResult {
 			sort.Ints(or.Map)
 		}
 		res.Ops = append(res.Ops, or)
+
+		// ---- line for the model ----
+		// identities of handshakes that failed before the challenge
+		failed := sink.drain()
+		nUnknown := 0
+		for _, o := range or.Order {
+			for _, a := range o {
+				if a < 0 {
+					nUnknown++
+				}
+			}
+		}
+		if nUnknown > 0 && nUnknown == len(failed) {
+			fi := 0
+			for _, o := range or.Order {
+				for j, a := range o {
+					if a < 0 {
+						o[j] = srv.byKey[failed[fi]]
+						fi++
+					}
+				}
+			}
+		}
+		chaos := false
+		srv.mu.Lock()
+		{
+			firstCommit := true
+			for i := first; i < len(srv.streams); i++ {
+				st := srv.streams[i]
+				from := 0
+				if i == streamsBefore-1 {
+					from = commitsBefore
+				}
+				for _, c := range st.commits[from:] {
+					direct := firstCommit && op.Kind == "sub"
+					firstCommit = false
+					if !direct && (c.beh == c18BehShutBC || c.beh == c18BehShutAC) {
+						chaos = true
+					}
+				}
+			}
+		}
+		srv.mu.Unlock()
+		if modelled {
+			// re-subscription loops = streams opened during the op,
+			// except the one a first connect opens for the direct handshake
+			loops := or.Order
+			if len(loops) > or.NewStreams {
+				loops = loops[len(loops)-or.NewStreams:]
+			}
+			if op.Kind == "sub" && !wasOpen && len(loops) > 0 {
+				loops = loops[1:]
+			}
+			set := append([]int(nil), prevMap...)
+			if op.Kind == "sub" {
+				has := false
+				for _, a := range set {
+					has = has || a == op.Acct
+				}
+				if !has {
+					set = append(set, op.Acct)
+				}
+			}
+			var ords []string
+			for _, lp := range loops {
+				full := append([]int(nil), lp...)
+				rest := []int{}
+				for _, a := range set {
+					in := false
+					for _, b := range lp {
+						in = in || a == b
+					}
+					if !in {
+						rest = append(rest, a)
+					}
+				}
+				sort.Ints(rest)
+				full = append(full, rest...)
+				ss := make([]string, len(full))
+				for i, a := range full {
+					ss[i] = fmt.Sprint(a)
+				}
+				if len(ss) == 0 {
+					ords = append(ords, "e")
+				} else {
+					ords = append(ords, strings.Join(ss, "."))
+				}
+				if len(lp) < len(set) {
+					set = append([]int(nil), lp...) // aborted: the rest was dropped
+				}
+			}
+			ordTok := "-"
+			if len(ords) > 0 {
+				ordTok = strings.Join(ords, "/")
+			}
+			behTok := "-"
+			if len(op.Beh) > 0 {
+				behTok = strings.Join(op.Beh, ",")
+			}
+			line := fmt.Sprintf("C18 cl %s %d %d %s %s", op.Kind, op.Acct, op.Refuse, behTok, ordTok)
+			fi := func(l []int) string {
+				if len(l) == 0 {
+					return "-"
+				}
+				c := append([]int(nil), l...)
+				sort.Ints(c)
+				ss := make([]string, len(c))
+				for i, a := range c {
+					ss[i] = fmt.Sprint(a)
+				}
+				return strings.Join(ss, ".")
+			}
+			fe := func(l []string) string {
+				if len(l) == 0 {
+					return "-"
+				}
+				return strings.Join(l, ",")
+			}
+			ret := or.Ret
+			if ret == "" || ret == "no-live-stream" {
+				ret = "-"
+			}
+			b2 := func(b bool) string {
+				if b {
+					return "1"
+				}
+				return "0"
+			}
+			out := fmt.Sprintf("ret=%s main=%s handler=%s new=%d attempts=%d map=%s cur=%s subs=%s alive=%s open=%s",
+				ret, fe(or.MainErrs), fe(or.HandlerRes), or.NewStreams, or.Attempts, fi(or.Map), fi(or.Cur),
+				fi(or.CurSubs), b2(or.Alive), b2(or.Open))
+			if chaos || or.Ret == "hung" {
+				// concurrent HandleServerShutdown invocations: outside
+				// the modelled fragment, oracle only from here on
+				modelled = false
+			} else {
+				res.Lines = append(res.Lines, [2]string{line, out})
+			}
+		}
+		prevMap = or.Map
 		res.Trace = append(res.Trace, fmt.Sprintf("%s acct=%d refuse=%d beh=%v => ret=%s main=%v handler=%v newStreams=%d attempts=%d order=%v map=%v cur=%v alive=%v open=%v",
 			op.Kind, op.Acct, op.Refuse, op.Beh, or.Ret, or.MainErrs, or.HandlerRes, or.NewStreams, or.Attempts, or.Order, or.Map, or.Cur, or.Alive, or.Open))
 
@@ -531,7 +681,17 @@ func c18RunScenario(scn c18Scn, uniq int) *c18ScnResult {
 			}
 			sort.Ints(missing)
 			sort.Ints(dup)
-			if len(missing) > 0 && faultSeen {
+			if len(missing) > 0 && faultSeen && res.BadKey == "" {
+				switch {
+				case chaos || !modelled:
+					res.BadKey = "C18/client/concurrent-reconnects"
+				case op.Kind == "sub" && or.NewStreams == 0:
+					res.BadKey = "C18/client/dead-stream-after-handshake-error"
+				case len(or.HandlerRes) > 0 && or.HandlerRes[len(or.HandlerRes)-1] != "nil":
+					res.BadKey = "C18/client/handler-reconnect-error-ignored"
+				default:
+					res.BadKey = "C18/client/resubscribe-abort-drops-accounts"
+				}
 				res.Bad = append(res.Bad, fmt.Sprintf("after op %d (%s) the server is reachable and the client idle, but previously subscribed accounts %v are not subscribed on the newest stream (alive=%v)", opIdx, op.Kind, missing, or.Alive))
 			}
 			if len(dup) > 0 {
@@ -539,10 +699,16 @@ func c18RunScenario(scn c18Scn, uniq int) *c18ScnResult {
 			}
 		}
 		if or.Ret == "hung" {
-			res.Bad = append(res.Bad, fmt.Sprintf("op %d: StartAccountSubscription did not return", opIdx))
+			if res.BadKey == "" {
+				res.BadKey = "C18/client/hung"
+				if !modelled {
+					res.BadKey = "C18/client/concurrent-reconnects"
+				}
+				res.Bad = append(res.Bad, fmt.Sprintf("op %d: StartAccountSubscription did not return", opIdx))
+			}
 			break
 		}
-		if len(res.Bad) > 0 {
+		if !modelled {
 			break
 		}
 	}
@@ -645,9 +811,16 @@ func c18Clients(r *Run, scns []c18Scn) {
 			fmt.Fprintf(os.Stderr, "--- scenario %d naccts=%d min=%d max=%d\n  %s\n  BAD=%v stopHung=%v\n", i, scns[i].NAccts,
 				scns[i].MinMs, scns[i].MaxMs, strings.Join(res.Trace, "\n  "), res.Bad, res.StopHung)
 		}
+		for _, l := range res.Lines {
+			r.Emit(l[0], l[1])
+		}
 		if len(res.Bad) > 0 {
-			r.Count("client/oracle-violation")
-			r.Violate(res.Bad[0], "C18/client", map[string]interface{}{"kind": "client", "scenario": scns[i], "trace": res.Trace})
+			key := res.BadKey
+			if key == "" {
+				key = "C18/client"
+			}
+			r.Count("client/violation/" + strings.TrimPrefix(key, "C18/client/"))
+			r.Violate(res.Bad[0], key, map[string]interface{}{"kind": "client", "scenario": scns[i], "trace": res.Trace})
 		}
 	}
 }
